@@ -8,6 +8,10 @@ pub fn enum_is_inner(ast: &DeriveInput) -> syn::Result<TokenStream> {
         Data::Enum(v) => &v.variants,
         _ => return Err(non_enum_error()),
     };
+    // Report malformed `#[strum(..)]` attributes instead of silently skipping the variant.
+    for variant in variants {
+        variant.get_variant_properties()?;
+    }
     let (impl_generics, ty_generics, where_clause) = ast.generics.split_for_impl();
 
     let enum_name = &ast.ident;
